@@ -154,3 +154,35 @@ Definition check_request (adjust : bool) (b : pb) (p : Q) : bool :=
 Definition min_power_up (p : pb * list pb) : Q := pmax (eu (fst p)) (lmin (map eu (snd p))).
 Definition min_power_down (p : pb * list pb) : Q :=
   pmax (- el (fst p)) (lmin (map (fun i => - el i) (snd p))).
+
+(* ------------------------------------------------------------------ minimum powers as the algorithm stores them *)
+(* BatteryDistributionAlgorithm identifies a pair by AggregatedBatteryData.component_id (the
+   first battery of the set) and keeps the exclusion bounds of batteries AND inverters in one
+   dict keyed by component id (`_inclusion_exclusion_bounds`); `_compute_battery_availability_ratio`
+   reads min_power back through those keys.  A later write to the same key wins. *)
+Definition ipair := (Z * pb * list (Z * pb))%type.   (* first battery id, aggregated bounds, inverters *)
+Definition dict := list (Z * Q).                     (* newest write first *)
+Fixpoint dget (d : dict) (k : Z) : Q :=
+  match d with
+  | [] => 0
+  | (k', v) :: r => if Z.eqb k k' then v else dget r k
+  end.
+Definition writes_of (up : bool) (p : ipair) : list (Z * Q) :=
+  let '(bid, b, invs) := p in
+  (bid, if up then eu b else - el b) :: map (fun i => (fst i, if up then eu (snd i) else - el (snd i))) invs.
+Definition excl_dict (up : bool) (ps : list ipair) : dict :=
+  fold_left (fun d p => fold_left (fun d w => w :: d) (writes_of up p) d) ps [].
+Definition min_power_keyed (up : bool) (ps : list ipair) : Q :=
+  let d := excl_dict up ps in
+  qsum (map (fun p : ipair => let '(bid, _, invs) := p in
+                              pmax (dget d bid) (lmin (map (fun i => dget d (fst i)) invs))) ps).
+(* forgetting the ids *)
+Definition strip (p : ipair) : pb * list pb := let '(_, b, invs) := p in (b, map snd invs).
+(* the ids a pair writes *)
+Definition keys_of (p : ipair) : list Z := let '(bid, _, invs) := p in bid :: map fst invs.
+(* groups whose members carry their component ids, in the order the manager read them
+   (AggregatedBatteryData.component_id = batteries[0].component_id) *)
+Definition igroup := (list (Z * pb) * list (Z * pb))%type.
+Definition cg_of (g : igroup) : cgroup := (map snd (fst g), map snd (snd g)).
+Definition ipair_of (g : igroup) : ipair :=
+  (match fst g with (bid, _) :: _ => bid | [] => 0%Z end, agg_bat (map snd (fst g)), snd g).
